@@ -12,7 +12,9 @@ b=json.load(open('/root/.vp/BASELINE.json')); stable=set(b['stable_pass'])
 passed=set()
 for tc in ET.parse('$wt/junit.xml').iter('testcase'):
     if not any(ch.tag in('failure','error','skipped') for ch in tc): passed.add(tc.get('classname','')+'::'+tc.get('name',''))
+import sys
 print(len(stable-passed))
+print(' '.join(sorted(stable-passed)), file=sys.stderr)
 PY
 )
 sed "s#/tmp/wt-$pid#$wt#g" "$demo" > $wt/_demo.py
